@@ -396,7 +396,10 @@ def gen_conv_case(rng, malformed: bool) -> dict:
     return {"kind": "conv", "classes": classes, "plan": plan}
 
 
-def gen_ser_case(rng, cyclic: bool, lists_only: bool = False) -> dict:
+def gen_ser_case(rng, cyclic: bool, lists_only: bool = False, fwd: bool = False) -> dict:
+    """heap objects: ["none"] ["scalar", v] ["list", refs] ["dict", [[k, ref]]] ["data", [[attr, ref]]] (attributes
+    annotated Any: cattrs follows them) ["fwd", [[attr, ref]]] (attributes annotated with an unresolvable forward
+    reference, Optional["X"] / List["X"] / Dict[str, "X"]: cattrs leaves them, _ensure_all_dicts finishes)"""
     n = rng.randint(1, 8)
     heap: list = []
     for i in range(n):
@@ -408,13 +411,30 @@ def gen_ser_case(rng, cyclic: bool, lists_only: bool = False) -> dict:
             heap.append(["none"] if rng.random() < 0.3 else ["scalar", rng.choice([["i", 3], ["s", "x"], ["b", False], ["f", 2], ["s", ""]])])
         elif r < 0.5:
             heap.append(["list", [rng.choice(targets) for _ in range(rng.randint(0, 3))] if targets else []])
-        elif r < 0.7:
+        elif r < (0.6 if fwd else 0.7):
             ks = rng.sample(DKEYS, rng.randint(0, 3))
             heap.append(["dict", [[k, rng.choice(targets)] for k in ks] if targets else []])
         else:
             ks = rng.sample(["a", "b", "the_c", "x_y", "id_"], rng.randint(0, 3))   # attribute names (no Meta: see run_ser)
-            heap.append(["data", [[k, rng.choice(targets)] for k in ks] if targets else []])
+            kind = "fwd" if fwd and rng.random() < 0.85 else "data"
+            heap.append([kind, [[k, rng.choice(targets)] for k in ks] if targets else []])
     return {"kind": "ser", "heap": heap, "root": n - 1 if not cyclic else rng.randrange(n)}
+
+
+def fwd_shapes() -> list[dict]:
+    """the cyclic shapes that work on the unchanged tree (forward-reference dataclasses, as in the project's tests):
+    self reference, a/b pair, ring with a back edge inside a dict-typed attribute, parent/children with back pointers"""
+    S = lambda v: ["scalar", ["s", v]]  # noqa: E731
+    return [
+        {"kind": "ser", "root": 0, "heap": [["fwd", [["name", 1], ["parent", 0]]], S("me")]},
+        {"kind": "ser", "root": 0, "heap": [["fwd", [["name", 2], ["parent", 1]]], ["fwd", [["name", 3], ["parent", 0]]], S("a"), S("b")]},
+        {"kind": "ser", "root": 0, "heap": [["fwd", [["parent", 1]]], ["fwd", [["parent", 2], ["idx", 3]]], ["fwd", [["parent", 0]]],
+                                            ["dict", [["first", 0], ["other", 4]]], ["fwd", [["name", 5]]], S("leaf")]},
+        {"kind": "ser", "root": 0, "heap": [["fwd", [["kids", 1], ["parent", 5]]], ["list", [2]], ["fwd", [["parent", 0], ["kids", 3]]],
+                                            ["list", [4]], ["fwd", [["parent", 2], ["note", 5]]], ["none"]]},
+        {"kind": "ser", "root": 2, "heap": [["fwd", [["idx", 1]]], ["dict", [["me", 0], ["n", 3]]], ["list", [0, 0]], ["none"]]},
+        {"kind": "ser", "root": 0, "heap": [["data", [["x", 1]]], ["fwd", [["p", 2]]], ["fwd", [["q", 3]]], S("deep")]},
+    ]
 
 
 # ================================================================== building real Python objects
@@ -710,10 +730,22 @@ def run_ser(case: dict) -> dict:
             objs[i] = []
         elif o[0] == "dict":
             objs[i] = {}
-        else:
+        elif o[0] == "data":
             # Any-typed attributes, no Meta: key renaming is the converter's business (exercised by the conv cases);
             # a class that is only reachable through Any is never registered, so it would keep its python names anyway
             k = dataclasses.make_dataclass(f"S{i}", [(kv[0], Any, None) for kv in o[1]])
+            classes[i] = k
+            objs[i] = k()
+        else:
+            # attributes annotated with a forward reference nobody can resolve (a locally defined class in real code)
+            def ann(ref):
+                kind = heap[ref][0] if ref < len(heap) else "none"
+                if kind == "list":
+                    return typing.List["Undefined_"]
+                if kind == "dict":
+                    return typing.Dict[str, "Undefined_"]
+                return typing.Optional["Undefined_"]
+            k = dataclasses.make_dataclass(f"F{i}", [(kv[0], ann(kv[1]), None) for kv in o[1]])
             classes[i] = k
             objs[i] = k()
 
@@ -725,7 +757,7 @@ def run_ser(case: dict) -> dict:
         elif o[0] == "dict":
             for kk, r in o[1]:
                 objs[i][kk] = get(r)
-        elif o[0] == "data":
+        elif o[0] in ("data", "fwd"):
             for nm, r in o[1]:
                 setattr(objs[i], nm, get(r))
     fails = []
@@ -743,12 +775,15 @@ def run_ser(case: dict) -> dict:
             signal.setitimer(signal.ITIMER_REAL, 0)
         try:
             json.dumps(r)
+            c = canon(r, {})
+            if has_null_key(c):
+                fails.append("serialize returned a null-valued key: " + json.dumps(untag(c))[:200])
+            ob: Any = ["ok", c]
+        except NotModelled:
+            raise
         except Exception as e:  # noqa: BLE001
-            fails.append(f"serialize returned data that is not JSON-serialisable: {e}")
-        c = canon(r, {})
-        if has_null_key(c):
-            fails.append("serialize returned a null-valued key")
-        ob: Any = ["ok", c]
+            fails.append(f"serialize returned data that is not JSON-serialisable: {type(e).__name__}: {e}"[:200])
+            ob = ["Leak", type(e).__name__]
     except NotModelled:
         raise
     except _Timeout:
@@ -925,10 +960,11 @@ def c_case(r: dict) -> str:
             elif o[0] == "list":
                 objs.append(f"(SList {clist(f'{x}%nat' for x in o[1])})")
             else:
-                objs.append(f"({'SDict' if o[0] == 'dict' else 'SData'} {clist(cpair(cstr(k), f'{x}%nat') for k, x in o[1])})")
+                ctor = {"dict": "SDict", "data": "SData", "fwd": "SFwd"}[o[0]]
+                objs.append(f"({ctor} {clist(cpair(cstr(k), f'{x}%nat') for k, x in o[1])})")
         ob = r["obs"]
-        return (f"(InSer {clist(objs)} {case['root']}%nat, "
-                f"ObSer {'(Ok ' + c_json(ob[1]) + ')' if ob[0] == 'ok' else 'Err'})")
+        res = "(SOk " + c_json(ob[1]) + ")" if ob[0] == "ok" else ("SLeak" if ob[0] == "Leak" else "SFuel")
+        return f"(InSer {clist(objs)} {case['root']}%nat, ObSer {res})"
     ops, obs = [], []
     for o in r["obs"]:
         if o["op"] == "unstructure":
@@ -969,8 +1005,11 @@ def main(chk: Check, replay: dict | None = None) -> int:
     n = 2500 if chk.thorough else 420
     for i in range(n):
         inputs.append(gen_conv_case(rng, malformed=(i % 3 == 2)))
+    inputs += fwd_shapes()
     for i in range(n // 3):
         inputs.append(gen_ser_case(rng, cyclic=(i % 4 >= 2), lists_only=(i % 4 == 2)))
+    for i in range(n // 3):
+        inputs.append(gen_ser_case(rng, cyclic=(i % 3 != 0), fwd=True))
     cases, skipped = [], 0
     for c in inputs:
         r = run_one(c)
@@ -998,6 +1037,10 @@ def main(chk: Check, replay: dict | None = None) -> int:
             dist["cases_ser"] += 1
             if c["obs"][0] == "Err":
                 dist["ser_RecursionError"] += 1
+            if c["obs"][0] == "Leak":
+                dist["ser_not_json"] = dist.get("ser_not_json", 0) + 1
+            if any(o[0] == "fwd" for o in c["input"]["heap"]):
+                dist["ser_with_forward_ref_dataclass"] = dist.get("ser_with_forward_ref_dataclass", 0) + 1
             continue
         dist["cases_conv"] += 1
         dist["error_names_innermost_field"] += c["stats"]["names_field"]
@@ -1021,11 +1064,11 @@ def main(chk: Check, replay: dict | None = None) -> int:
     for c in cases:
         c.pop("coq", None)
     if codes is not None:
-        bad = [c for c, k in zip(cases, codes) if (k >> 2) & 1]
+        bad = [c for c, k in zip(cases, codes) if (k >> 3) & 1]
         if bad:
             chk.broken.append({"kind": "guard", "name": "reach (registration walk of the model) is not closed",
                                "mismatches": len(bad), "first": {"input": bad[0]["input"], "obs": None}})
-    chk.decide(cases, codes, {1: "F16a"},
+    chk.decide(cases, codes, {1: "F16a", 2: "F16d"},
                "Corr.C16.run: run_ops / serialize_top (model) = structure_from_dict / unstructure_to_dict / "
                "DataclassSerializer.serialize observed on real dataclasses")
     return chk.finish(TRUSTED,
